@@ -175,6 +175,11 @@ def main(argv=None):
         cov["remote_sample_note"] = ("counter remote_runs: the same generated scenarios with every simulator as a real "
                                      "process over TCP (real random sleeps); the same oracle judges the event list "
                                      "merged by the system-wide monotonic clock")
+    if m["counters"].get("dfs_scenarios") and "dfs" not in cov.get("rule", "").lower():
+        cov["dfs_note"] = ("counters dfs_*: small scenarios (2-3 simulators, until <= 3) under a stateless DFS over every "
+                           "order in which in-flight replies can complete at quiescent points of the loop (capped per "
+                           "scenario; dfs_scenarios_exhausted = schedule space enumerated completely); every schedule is "
+                           "judged by the same oracle")
     cov["known_findings_matched"] = dict(known)
     cov["unlisted_violations"] = len(unlisted)
     cov["failed_workers"] = m["failed_workers"]
